@@ -4,7 +4,9 @@
   `Reach run w` — the world `w` is reached from `NewWorld` by accepted calls of
   `registerComponent`, `NewEntity(ids…, rels…)`, `RemoveEntity` (of relation targets too),
   `SetRelations`, `Add(ids…, rels…)` (the operations of `Ark.Props.C04World`, under the hypotheses
-  of their `Good.*` theorems) and complete iterations of queries with relation targets.
+  of their `Good.*` theorems — among them: the relation targets named have IDs inside the pool
+  slice, which every handle a world issued has) and complete iterations of queries with relation
+  targets.
 
   `reach_qgood` — every such world is `QGood` and has no registered filter; hence
   `reach_query` (an unregistered filter visits exactly the alive matching entities) and
@@ -41,6 +43,7 @@ inductive Reach (run : ProbeRunner) : World → Prop
       (∀ (c : Comp), c ∈ ids → c < w.kinds.length) →
       (rels.map (·.comp)).Nodup → (∀ (r : RelID), r ∈ rels → r.comp ∈ ids) →
       (∀ (r : RelID), r ∈ rels → w.isRelComp r.comp = true) →
+      (∀ (r : RelID), r ∈ rels → r.target.id < w.pool.ents.length) →
       w.tables.length < maxU32 → w.entities.length + 1 < 2 ^ 32 →
       panicOf (opNewEntity run p ids vals rels w) = none →
       Reach run (opNewEntity run p ids vals rels w).state
@@ -54,6 +57,7 @@ inductive Reach (run : ProbeRunner) : World → Prop
       w.alive e = true → (w.index e.id).1 ≠ maxU32 → e.id < w.entities.length →
       rels.isEmpty = false → (rels.map (·.comp)).Nodup →
       (∀ (r : RelID), r ∈ rels → (targetOf w e.id r.comp).isSome = true) →
+      (∀ (r : RelID), r ∈ rels → r.target.id < w.pool.ents.length) →
       w.tables.length < maxU32 → w.entities.length + 1 < 2 ^ 32 →
       panicOf (opSetRelations run p e mapperIds rels w) = none →
       Reach run (opSetRelations run p e mapperIds rels w).state
@@ -63,6 +67,7 @@ inductive Reach (run : ProbeRunner) : World → Prop
       (∀ (c : Comp), c ∈ ids → c < w.kinds.length) →
       (rels.map (·.comp)).Nodup → (∀ (r : RelID), r ∈ rels → r.comp ∈ ids) →
       (∀ (r : RelID), r ∈ rels → w.isRelComp r.comp = true) →
+      (∀ (r : RelID), r ∈ rels → r.target.id < w.pool.ents.length) →
       w.tables.length < maxU32 → w.entities.length + 1 < 2 ^ 32 →
       panicOf (opAdd run p e ids vals rels w) = none →
       Reach run (opAdd run p e ids vals rels w).state
@@ -87,9 +92,9 @@ theorem reach_qgood (run : ProbeRunner) {w : World} (r : Reach run w) : QGood w 
     obtain ⟨n, hr⟩ := ok_of_panicOf hnp
     obtain ⟨fl, ht, _, _⟩ := g.good
     exact (registerComponent_qkeep ht hr).cache he
-  | @new w p ids vals rels _ hreg hnd hin hrc hfew hrows hnp ih =>
+  | @new w p ids vals rels _ hreg hnd hin hrc htin hfew hrows hnp ih =>
     obtain ⟨g, he⟩ := ih
-    refine ⟨g.newEntity run p hreg hnd hin hrc hfew hrows hnp, ?_⟩
+    refine ⟨g.newEntity run p hreg hnd hin hrc htin hfew hrows hnp, ?_⟩
     obtain ⟨e, hok⟩ := ok_of_panicOf hnp
     obtain ⟨fl, ht, hl, hno⟩ := g.good
     exact (opNewEntity_qkeep run p ht hl hno hreg hnd hin hfew hrows hok).1.cache he
@@ -98,22 +103,25 @@ theorem reach_qgood (run : ProbeRunner) {w : World} (r : Reach run w) : QGood w 
     refine ⟨(g.removeEntity run ha hidx hlt hfew hrows).2, ?_⟩
     obtain ⟨fl, ht, hl, hno⟩ := g.good
     obtain ⟨h2, hnf⟩ := live_of_indexed ht hidx hlt
-    obtain ⟨w3, hst, q3, _⟩ := opRemoveEntity_qkeep run ht hl hno h2 hnf ha hfew hrows
+    obtain ⟨w3, hst, q3, _⟩ := opRemoveEntity_qkeep run ht hl hno h2 hnf ha
+      (by rw [← ht.link.lenEq]; exact hlt) hfew hrows
     rw [hst]; exact q3.cache he
-  | @setRel w p e mids rels _ ha hidx hlt hne hnd hhas hfew hrows hnp ih =>
+  | @setRel w p e mids rels _ ha hidx hlt hne hnd hhas htin hfew hrows hnp ih =>
     obtain ⟨g, he⟩ := ih
-    refine ⟨g.setRelations run p ha hidx hlt hne hnd hhas hfew hrows hnp, ?_⟩
+    refine ⟨g.setRelations run p ha hidx hlt hne hnd hhas htin hfew hrows hnp, ?_⟩
     obtain ⟨u, hok⟩ := ok_of_panicOf hnp
     obtain ⟨fl, ht, hl, hno⟩ := g.good
     obtain ⟨h2, hnf⟩ := live_of_indexed ht hidx hlt
-    exact (opSetRelations_qkeep run p ht hl hno h2 hnf ha hne hnd hhas hrows hok).cache he
-  | @add w p e ids vals rels _ ha hidx hlt hreg hnd hin hrc hfew hrows hnp ih =>
+    exact (opSetRelations_qkeep run p ht hl hno h2 hnf ha
+      (by rw [← ht.link.lenEq]; exact hlt) hne hnd hhas hrows hok).cache he
+  | @add w p e ids vals rels _ ha hidx hlt hreg hnd hin hrc htin hfew hrows hnp ih =>
     obtain ⟨g, he⟩ := ih
-    refine ⟨g.add run p ha hidx hlt hreg hnd hin hrc hfew hrows hnp, ?_⟩
+    refine ⟨g.add run p ha hidx hlt hreg hnd hin hrc htin hfew hrows hnp, ?_⟩
     obtain ⟨u, hok⟩ := ok_of_panicOf hnp
     obtain ⟨fl, ht, hl, hno⟩ := g.good
     obtain ⟨h2, hnf⟩ := live_of_indexed ht hidx hlt
-    exact (opAdd_qkeep run p ht hl hno h2 hnf ha hreg hnd hin hrows hok).cache he
+    exact (opAdd_qkeep run p ht hl hno h2 hnf ha
+      (by rw [← ht.link.lenEq]; exact hlt) hreg hnd hin hrows hok).cache he
   | @query w fo extra _ hq ih =>
     obtain ⟨g, he⟩ := ih
     obtain ⟨l1, l2, q, visits, hd, g2, _⟩ :=
